@@ -1,5 +1,7 @@
 import CookModel.Side.BindingsSpec
 import CookModel.Lemmas.BindingsCombine
+import CookModel.Lemmas.BindingsMerge
+import CookModel.Lemmas.ParsedScaled
 /-
   C19  The FFI view mirrors the core recipe and combines amounts faithfully.
 
@@ -182,6 +184,106 @@ theorem C19_selected_out_of_range {α} [Arith α] (ings : List (FIngredient α))
     combineIngredientsSelected ings (i :: rest) = .error (.unwrapNone "expand_with_ingredients") :=
   expand_oob ings [] i rest h
 
+/-! ## audit additions (notes/audit-C19.md) -/
+
+/-- the selected sub-list exists as soon as the indices are in range -/
+theorem C19_selection_exists {α} (ings : List (FIngredient α)) (indices : List Nat)
+    (hin : ∀ i ∈ indices, i < ings.length) :
+    indices.map (fun i => ings[i]?) = (indices.filterMap (fun i => ings[i]?)).map some := by
+  induction indices with
+  | nil => rfl
+  | cons i rest ih =>
+    have hi : i < ings.length := hin i List.mem_cons_self
+    simp only [List.map_cons, List.filterMap_cons, List.getElem?_eq_getElem hi]
+    rw [ih (fun j hj => hin j (List.mem_cons_of_mem _ hj))]
+
+/-- "for all selections and orders": the order in which the indices of a selection are given does not
+    matter — for a permutation of the (in-range) indices the combined map holds the same value under
+    every key of a numeric kind and of kind Empty, and a Text key is present in one iff in the other. -/
+theorem C19_combine_selected_perm (ings : List (FIngredient Rat)) (indices indices' : List Nat)
+    (hp : indices.Perm indices') (hin : ∀ i ∈ indices, i < ings.length)
+    (hlen : indices.length ≤ 4294967296) :
+    ∃ m m', combineIngredientsSelected ings indices = .ok m ∧
+      combineIngredientsSelected ings indices' = .ok m' ∧
+      ∀ name key, (key.unitType ≠ .text → IngredientList.value m' name key = IngredientList.value m name key) ∧
+        ((IngredientList.value m' name key).isSome = (IngredientList.value m name key).isSome) := by
+  have hin' : ∀ i ∈ indices', i < ings.length := fun i hi => hin i (hp.mem_iff.mpr hi)
+  have hlen' : indices'.length ≤ 4294967296 := hp.length_eq ▸ hlen
+  rw [C19_combine_selected_is_subset ings indices _ (C19_selection_exists ings indices hin) hlen,
+    C19_combine_selected_is_subset ings indices' _ (C19_selection_exists ings indices' hin') hlen']
+  apply C19_combine_perm _ _ (hp.filterMap _)
+  have : (indices.filterMap (fun i => ings[i]?)).length ≤ indices.length := List.length_filterMap_le _ _
+  omega
+
+/-- `merge_ingredient_lists` (bindings/src/model.rs; public, not exported over the FFI), over any
+    arithmetic: for kind-consistent lists (`AllKindOK`: every stored value has the kind its key says —
+    true of everything `combine_ingredients` returns, `C19_combined_is_mergeable`) and `right` a map, it
+    does not panic, the result is kind-consistent again, and under every (name, key) it holds the value of
+    `left` alone, the value of `right` alone, or — when both have one — the stored value with the added
+    one (`plus`: numbers added, ranges end-wise, texts concatenated, Empty kept).  Nothing is lost, nothing
+    invented, whatever the iteration order of `right`'s outer map (the statement is per key). -/
+theorem C19_merge_lists_values {α} [Arith α] (left right : Ffi.IngredientList α)
+    (hl : AllKindOK left) (hr : AllKindOK right) (hmap : IngredientList.IsMap right) :
+    ∃ m, mergeIngredientLists left right = .ok m ∧ AllKindOK m ∧
+      ∀ name key, IngredientList.value m name key =
+        mergedValue (IngredientList.value left name key) (IngredientList.value right name key) :=
+  bmerge_lists_map left right hl hr hmap
+
+/-- … in particular numeric amounts under the same name and unit are summed, ranges end-wise -/
+theorem C19_merge_lists_sums (left right : Ffi.IngredientList Rat)
+    (hl : AllKindOK left) (hr : AllKindOK right) (hmap : IngredientList.IsMap right) :
+    ∃ m, mergeIngredientLists left right = .ok m ∧
+      ∀ name key,
+        (∀ a b, IngredientList.value left name key = some (.number a) →
+          IngredientList.value right name key = some (.number b) →
+          IngredientList.value m name key = some (.number (a + b))) ∧
+        (∀ a a' b b', IngredientList.value left name key = some (.range a a') →
+          IngredientList.value right name key = some (.range b b') →
+          IngredientList.value m name key = some (.range (a + b) (a' + b'))) ∧
+        (IngredientList.value right name key = none →
+          IngredientList.value m name key = IngredientList.value left name key) ∧
+        (IngredientList.value left name key = none →
+          IngredientList.value m name key = IngredientList.value right name key) := by
+  obtain ⟨m, h1, _, h3⟩ := bmerge_lists_map left right hl hr hmap
+  refine ⟨m, h1, fun name key => ⟨?_, ?_, ?_, ?_⟩⟩
+  · intro a b ha hb; rw [h3, ha, hb]; rfl
+  · intro a a' b b' ha hb; rw [h3, ha, hb]; rfl
+  · intro hb; rw [h3, hb]; cases IngredientList.value left name key <;> rfl
+  · intro ha; rw [h3, ha]; cases IngredientList.value right name key <;> rfl
+
+/-- what `combine_ingredients` returns can be merged: it is a map and kind-consistent -/
+theorem C19_combined_is_mergeable {α} [Arith α] (ings : List (FIngredient α)) (hlen : ings.length ≤ 4294967296)
+    (m : Ffi.IngredientList α) (h : combineIngredients ings = .ok m) :
+    AllKindOK m ∧ IngredientList.IsMap m := by
+  rw [combineIngredients_eq_addAll ings hlen] at h
+  obtain ⟨m', h1, h2, h3, h4, _⟩ := addAll_spec ings ([] : Ffi.IngredientList α) (fun p hp => by simp at hp)
+  rw [h1] at h
+  cases h
+  exact ⟨h2, h3 (by simp [AList.keys]), h4 (fun p hp => by simp at hp)⟩
+
+/-! ### every recipe the parser returns (link to C06, Lemmas/ParsedScaled.lean)
+
+  `ParsedScaled r`: `r` is what `parse` returns for some environment and input (valid or alongside
+  diagnostics), scaled by any factor with any converter or by `default_scale`.  For these the hypothesis
+  `IndicesInRange` of the mirror theorems is a theorem (C06, carried through scaling); what remains is
+  `FitsU32` (at most 2^32 components of a kind — a `u32` index cannot say more). -/
+
+/-- the item indices of every parsed and scaled recipe are in range -/
+theorem C19_parsed_indices_in_range {r : ScaledRecipe Rat} (h : ParsedScaled r) : IndicesInRange r :=
+  h.indicesInRange
+
+/-- The mirror clauses for every input and every scaling: same sections, blocks and step items, same
+    components, every item reference resolves to the image of the component it denotes. -/
+theorem C19_mirror_parsed {r : ScaledRecipe Rat} (h : ParsedScaled r) (hfit : FitsU32 r) :
+    Forall₂ SectionMirrors r.sections (intoSimpleRecipe r).sections ∧
+    (Forall₂ IngredientMirrors r.ingredients (intoSimpleRecipe r).ingredients ∧
+      Forall₂ CookwareMirrors r.cookware (intoSimpleRecipe r).cookware ∧
+      Forall₂ TimerMirrors r.timers (intoSimpleRecipe r).timers) ∧
+    (∀ fsec ∈ (intoSimpleRecipe r).sections, ∀ fs, Block.stepBlock fs ∈ fsec.blocks →
+      ∀ fit ∈ fs.items, ItemResolves r (intoSimpleRecipe r) fit) :=
+  ⟨C19_mirror_sections r hfit h.indicesInRange, C19_mirror_components r,
+   C19_mirror_resolves r hfit h.indicesInRange⟩
+
 /-! ## Non-vacuity -/
 
 namespace Ffi
@@ -223,6 +325,17 @@ example : numbersOf exIngs "salt".toList "g".toList = [5, 1/2] := by decide +ker
 example : combineIngredientsSelected exIngs [2, 0, 2] = combineIngredients [exIngs[2], exIngs[0], exIngs[2]] := by
   decide +kernel
 example : combineIngredientsSelected exIngs [7] = .error (.unwrapNone "expand_with_ingredients") := by decide +kernel
+/-- two combined lists merged: salt 5 g + ½ g, pepper 1–2 kept -/
+example : (mergeIngredientLists
+      [("salt".toList, [(⟨"g".toList, .number⟩, FValue.number (5 : Rat))])]
+      [("pepper".toList, [(⟨[], .range⟩, .range 1 2)]), ("salt".toList, [(⟨"g".toList, .number⟩, .number (1/2))])]) = .ok
+    [("salt".toList, [(⟨"g".toList, .number⟩, .number (11/2))]), ("pepper".toList, [(⟨[], .range⟩, .range 1 2)])] := by
+  decide +kernel
+/-- a selection given in two orders: the numeric entries agree -/
+example : (combineIngredientsSelected exIngs [0, 2, 4, 1]).map (fun m => (IngredientList.value m "salt".toList ⟨"g".toList, .number⟩,
+      IngredientList.value m "pepper".toList ⟨[], .range⟩)) =
+    (combineIngredientsSelected exIngs [1, 4, 2, 0]).map (fun m => (IngredientList.value m "salt".toList ⟨"g".toList, .number⟩,
+      IngredientList.value m "pepper".toList ⟨[], .range⟩)) := by decide +kernel
 end Ffi
 
 end Cook
